@@ -11,6 +11,7 @@ import (
 	"math"
 	"os"
 	"runtime"
+	"runtime/debug"
 	"sort"
 	"strings"
 	"sync"
@@ -231,6 +232,11 @@ func ExecBubble(t *testing.T, prop string, seed uint64, tier string, keep map[in
 	r := &Run{T: t, Prop: prop, Seed: seed, Tier: tier, Keep: keep, Opts: opts, stats: map[string]int64{}, Knobs: map[string]any{}}
 	wall := time.Now()
 	res := &Result{Prop: prop, Seed: seed}
+	// The collector preempts goroutines and reshuffles the run queue at moments that depend on
+	// the heap left behind by earlier runs.  Collect between runs, never during one.
+	runtime.GC()
+	oldGC := debug.SetGCPercent(-1)
+	defer debug.SetGCPercent(oldGC)
 	func() {
 		defer func() {
 			if p := recover(); p != nil {
